@@ -47,7 +47,8 @@ theorem good0_cur {cap : Cap} {L : Bool} (p : Pool) (t : Nat) (f : PTask → PTa
     (hrel : (g s).released = s.released)
     (hnyr : NYR (g s).phase = true → s.released = false)
     (hcan : t ∈ p.cancelledR → (g s).phase ≠ .created ∧ (g s).phase ≠ .inWorker)
-    (hok : OKs p.lost (g s)) :
+    (hok : OKs p.lost (g s))
+    (hfin : s.phase = .finished → (g s).phase = .finished := by intro h; first | exact h | rfl | simp_all) :
     Good0 cap L (p.modTask t f) ∧ (p.modTask t f).Cur t (g s) := by
   obtain ⟨x, hx, hs⟩ := hc
   have hfx : (f x).soft = g s := by rw [hfg, hs]
@@ -56,7 +57,18 @@ theorem good0_cur {cap : Cap} {L : Bool} (p : Pool) (t : Nat) (f : PTask → PTa
     have h2 : x.released = s.released := by rw [← hs]; rfl
     rw [h1, hrel, h2]
   have hphx : (f x).phase = (g s).phase := by rw [← hfx]; rfl
-  refine ⟨⟨?_, ?_, ?_, hg.grp.of_eq rfl (by simp [modTask]), ?_, hg.ll, hg.al⟩, ⟨f x, getElem?_modify_eq _ _ _ _ hx, hfx⟩⟩
+  have hfl : FlushOK (p.modTask t f) := by
+    refine hg.fl.frame rfl rfl ?_
+    intro i ⟨y, hy, hyf⟩
+    by_cases e : t = i
+    · subst e
+      rw [hx] at hy; cases hy
+      refine ⟨f x, getElem?_modify_eq _ _ _ _ hx, ?_⟩
+      rw [hphx]
+      apply hfin
+      rw [← hs]; exact hyf
+    · exact ⟨y, by simp only [modTask_tasks, List.getElem?_modify, e, if_false, hy]; rfl, hyf⟩
+  refine ⟨⟨?_, ?_, ?_, hg.grp.of_eq rfl (by simp [modTask]), ?_, hfl, hg.ll, hg.al⟩, ⟨f x, getElem?_modify_eq _ _ _ _ hx, hfx⟩⟩
   · cases cap with
     | fin n =>
       obtain ⟨v, hv, hsum⟩ := hg.slot
@@ -92,9 +104,10 @@ theorem good_cur {cap : Cap} {L : Bool} (p : Pool) (t : Nat) (f : PTask → PTas
     (hnyr : NYR (g s).phase = true → s.released = false)
     (hcan : t ∈ p.cancelledR → (g s).phase ≠ .created ∧ (g s).phase ≠ .inWorker)
     (hok : OKs p.lost (g s))
-    (hmap : (g s).mapHeld = s.mapHeld ∧ (g s).req = s.req := by exact ⟨rfl, rfl⟩) :
+    (hmap : (g s).mapHeld = s.mapHeld ∧ (g s).req = s.req := by exact ⟨rfl, rfl⟩)
+    (hfin : s.phase = .finished → (g s).phase = .finished := by intro h; first | exact h | rfl | simp_all) :
     Good cap L (p.modTask t f) ∧ (p.modTask t f).Cur t (g s) := by
-  obtain ⟨h0, hc'⟩ := good0_cur p t f g hfg hg.toGood0 s hc hrel hnyr hcan hok
+  obtain ⟨h0, hc'⟩ := good0_cur p t f g hfg hg.toGood0 s hc hrel hnyr hcan hok hfin
   obtain ⟨x, hx, hs⟩ := hc
   have hfx : (f x).soft = g s := by rw [hfg, hs]
   have hmp : MapOK (p.modTask t f) := by
@@ -160,6 +173,7 @@ theorem _root_.Taskpool.OKs.finished {lost : Bool} {s : SoftP} (h : OKs lost s) 
 
 theorem good_setLost {cap : Cap} (p : Pool) (hg : Good cap true p) : Good cap true ({ p with lost := true } : Pool) :=
   ⟨⟨hg.slot, hg.phase, hg.reg.setLost, hg.grp.of_eq rfl rfl, fun t tk h => (hg.life t tk h).toLost,
+    hg.fl.frame rfl rfl (fun _ h => h),
     fun h => Bool.noConfusion h, fun h => Bool.noConfusion h⟩, hg.map.of_eq rfl rfl⟩
 
 /-- in the strict variant the registries are complete, so `_task_ending` finds the id (no `KeyError`) -/
@@ -293,17 +307,17 @@ theorem good_cbBegin {cap : Cap} {L : Bool} (p : Pool) (t : Nat) (tk : PTask) (i
 theorem good_suspend {cap : Cap} {L : Bool} (p : Pool) (t : Nat) (ph : Phase) (hg : Good cap L p) (s : SoftP) (hc : p.Cur t s)
     (hnyr : NYR ph = true → s.released = false)
     (hcan : t ∈ p.cancelledR → ph ≠ .created ∧ ph ≠ .inWorker)
-    (hok : OKs p.lost (s.setPhase ph)) :
+    (hok : OKs p.lost (s.setPhase ph)) (hnf : s.phase ≠ .finished) :
     Good cap L (p.suspendTask t ph) ∧ (p.suspendTask t ph).Cur t (s.setPhase ph) := by
   unfold suspendTask
   obtain ⟨x, hx, hs⟩ := hc
   simp only [hx]
   split
   · have h1 := good_cur p t (fun k => { k with phase := ph, fut := .cancelled, mustCancel := false })
-      (fun s => s.setPhase ph) (fun _ => rfl) hg s ⟨x, hx, hs⟩ rfl hnyr hcan hok
+      (fun s => s.setPhase ph) (fun _ => rfl) hg s ⟨x, hx, hs⟩ rfl hnyr hcan hok ⟨rfl, rfl⟩ (fun h => absurd h hnf)
     exact ⟨(tame_schedTask _ t).good h1.1, (tame_schedTask _ t).cur h1.2⟩
   · exact good_cur p t (fun k => { k with phase := ph, fut := .pending })
-      (fun s => s.setPhase ph) (fun _ => rfl) hg s ⟨x, hx, hs⟩ rfl hnyr hcan hok
+      (fun s => s.setPhase ph) (fun _ => rfl) hg s ⟨x, hx, hs⟩ rfl hnyr hcan hok ⟨rfl, rfl⟩ (fun h => absurd h hnf)
 
 /-- the callback-accounting facts about a task that is about to run `_task_ending` -/
 structure Ending (s : SoftP) : Prop where
@@ -385,7 +399,8 @@ theorem good_endCallbackTail {cap : Cap} {L : Bool} (q : Pool) (t : Nat) (tk : P
     have hecb : s.endCb = .coro := by rw [← hspec, hcb]
     have hinc := hok.incEnd hr hph hne hA (by rw [hecb]; simp)
     obtain ⟨hg1, hc1⟩ := good_cbBegin _ t tk true hg0 s hc0 hph hinc
-    refine (good_suspend _ t .inEndCb hg1 _ hc1 (fun h => by simp [NYR] at h) (fun _ => by simp) ?_).1
+    refine (good_suspend _ t .inEndCb hg1 _ hc1 (fun h => by simp [NYR] at h) (fun _ => by simp) ?_
+      (by show (s.incCb true).phase ≠ _; rw [show (s.incCb true).phase = s.phase from rfl, hph]; simp)).1
     rw [good_cbBegin_lost]
     exact hinc.toEndCb hr (by show s.nEC + 1 = 1; omega) hecb
 
@@ -431,7 +446,19 @@ theorem good_moveRelease {cap : Cap} {L : Bool} (p p1 : Pool) (t : Nat) (hg : Go
     have f3 : MapFrame p1.releasePool ((p1.releasePool).modTask t fun k => { k with released := true }) :=
       MapFrame.modify _ _ t _ rfl rfl (fun _ _ => ⟨rfl, rfl⟩)
     exact ((f1.trans f2).trans f3).map hg.map
-  refine ⟨⟨⟨?_, ?_, ?_, hg.grp.of_eq hgr (by simp [modTask, h3, ht1]), ?_, fun h => by rw [hlost]; exact hg.ll h,
+  have hfl : FlushOK ((p1.releasePool).modTask t fun k => { k with released := true }) := by
+    refine hg.fl.frame ?_ hap ?_
+    · rw [show ((p1.releasePool).modTask t fun k => { k with released := true }).gathers = p1.releasePool.gathers from rfl,
+        releasePool_gathers, moveToEnded_gathers p p1 t hm]
+    · intro i ⟨y, hy, hyf⟩
+      show ∃ tk', ((p1.releasePool).modTask t fun k => { k with released := true }).tasks[i]? = some tk' ∧ _
+      simp only [modTask_tasks, h3, ht1]
+      by_cases e : t = i
+      · subst e
+        rw [a] at hy; cases hy
+        exact ⟨_, getElem?_modify_eq _ _ _ _ a, hyf⟩
+      · exact ⟨y, by simp only [List.getElem?_modify, e, if_false, hy]; rfl, hyf⟩
+  refine ⟨⟨⟨?_, ?_, ?_, hg.grp.of_eq hgr (by simp [modTask, h3, ht1]), ?_, hfl, fun h => by rw [hlost]; exact hg.ll h,
     fun h => by rw [hap]; exact hg.al h⟩, hmp⟩, ⟨_, hget, by rw [← hs]; rfl⟩⟩
   · cases cap with
     | fin n =>
@@ -555,7 +582,8 @@ theorem good_cancelCallback {cap : Cap} {L : Bool} (p : Pool) (t : Nat) (tk : PT
     have hccb : s.cancelCb = .coro := by rw [← hspec, hcb]
     have hinc := hok.incCancel hph hrel hn hw (by rw [hccb]; simp)
     obtain ⟨hg1, hc1⟩ := good_cbBegin p t tk false hg s hc hph hinc
-    refine (good_suspend _ t .inCancelCb hg1 _ hc1 (fun _ => hrel) (fun _ => by simp) ?_).1
+    refine (good_suspend _ t .inCancelCb hg1 _ hc1 (fun _ => hrel) (fun _ => by simp) ?_
+      (by show (s.incCb false).phase ≠ _; rw [show (s.incCb false).phase = s.phase from rfl, hph]; simp)).1
     rw [good_cbBegin_lost]
     exact hinc.toCancelCb (by show s.nCC + 1 = 1; omega) hccb hrel
 
@@ -570,7 +598,7 @@ theorem good_taskCancellation {cap : Cap} {L : Bool} (p : Pool) (t : Nat) (tk : 
     have ht : t ∈ p.running := by simpa using hrun
     -- the registry move
     have hg1 : Good cap L ({ p with running := p.running.erase t, cancelledR := p.cancelledR ++ [t] } : Pool) := by
-      refine ⟨⟨hg.slot, hg.phase, hg.reg.regCancel t ht ?_, hg.grp.of_eq rfl rfl, hg.life, hg.ll, hg.al⟩, hg.map.of_eq rfl rfl⟩
+      refine ⟨⟨hg.slot, hg.phase, hg.reg.regCancel t ht ?_, hg.grp.of_eq rfl rfl, hg.life, hg.fl.frame rfl rfl (fun _ h => h), hg.ll, hg.al⟩, hg.map.of_eq rfl rfl⟩
       intro tk' h
       obtain ⟨x, hx, hs⟩ := hc
       rw [hx] at h; cases h
@@ -611,17 +639,19 @@ structure InWork (s : SoftP) : Prop where
   rel : s.released = false
   ncc : s.nCC = 0
   wc : s.wasCancelled = false
+  nf : s.phase ≠ .finished
 
 theorem inWork_of {cap : Cap} {L : Bool} {p : Pool} {t : Nat} {s : SoftP} (hc : p.Cur t s) (hg : Good cap L p)
     (hph : s.phase = .created ∨ s.phase = .inWorker) : InWork s :=
-  ⟨hc.nyr hg (by rcases hph with h | h <;> rw [h] <;> rfl), ((hc.ok hg).c0 hph).1, ((hc.ok hg).c0 hph).2⟩
+  ⟨hc.nyr hg (by rcases hph with h | h <;> rw [h] <;> rfl), ((hc.ok hg).c0 hph).1, ((hc.ok hg).c0 hph).2,
+    by rcases hph with h | h <;> rw [h] <;> simp⟩
 
 /-- enter `wrapUp` (the worker is over), keeping everything else -/
 theorem good_toWrapUp {cap : Cap} {L : Bool} (p : Pool) (t : Nat) (f : PTask → PTask) (hf : ∀ x, (f x).soft = x.soft.setPhase .wrapUp)
-    (hg : Good cap L p) (s : SoftP) (hc : p.Cur t s) :
+    (hg : Good cap L p) (s : SoftP) (hc : p.Cur t s) (hnf : s.phase ≠ .finished) :
     Good cap L (p.modTask t f) ∧ (p.modTask t f).Cur t (s.setPhase .wrapUp) :=
   good_cur p t f (fun s => s.setPhase .wrapUp) hf hg s hc rfl (fun h => by simp [SoftP.setPhase, NYR] at h)
-    (fun _ => by simp [SoftP.setPhase]) ((hc.ok hg).setPhase_free .wrapUp (Or.inl rfl))
+    (fun _ => by simp [SoftP.setPhase]) ((hc.ok hg).setPhase_free .wrapUp (Or.inl rfl)) ⟨rfl, rfl⟩ (fun h => absurd h hnf)
 
 /-- the worker coroutine is over (normally or with an exception): `wrapUp`, then `_task_ending` -/
 theorem good_afterWorker {cap : Cap} {L : Bool} (p : Pool) (t : Nat) (e : Option Err) (hg : Good cap L p) (s : SoftP) (hc : p.Cur t s)
@@ -630,12 +660,12 @@ theorem good_afterWorker {cap : Cap} {L : Bool} (p : Pool) (t : Nat) (e : Option
   split
   · have t0 := tame_logEv p (Ev.returned t)
     obtain ⟨hg1, hc1⟩ := good_toWrapUp (p.logEv (Ev.returned t)) t (fun k => { k with phase := .wrapUp }) (fun _ => rfl)
-      (t0.good hg) s (t0.cur hc)
+      (t0.good hg) s (t0.cur hc) hw.nf
     exact good_taskEnding _ t hg1 _ hc1 ⟨hw.rel, rfl, fun h => by rw [show (s.setPhase .wrapUp).wasCancelled = s.wasCancelled from rfl, hw.wc] at h; cases h⟩
   · rename_i x
     have t0 := tame_logEv p (Ev.raised t)
     obtain ⟨hg1, hc1⟩ := good_toWrapUp (p.logEv (Ev.raised t)) t (fun k => { k with phase := .wrapUp, pendingExc := some x })
-      (fun _ => rfl) (t0.good hg) s (t0.cur hc)
+      (fun _ => rfl) (t0.good hg) s (t0.cur hc) hw.nf
     exact good_taskEnding _ t hg1 _ hc1 ⟨hw.rel, rfl, fun h => by rw [show (s.setPhase .wrapUp).wasCancelled = s.wasCancelled from rfl, hw.wc] at h; cases h⟩
 
 theorem good_stepCreated {cap : Cap} {L : Bool} (p : Pool) (t : Nat) (tk : PTask) (hg : Good cap L p) (s : SoftP) (hc : p.Cur t s)
@@ -645,7 +675,7 @@ theorem good_stepCreated {cap : Cap} {L : Bool} (p : Pool) (t : Nat) (tk : PTask
   unfold stepCreated
   split
   · obtain ⟨hg1, hc1⟩ := good_toWrapUp p t (fun k => { k with phase := .wrapUp, unstarted := false, cancelledEarly := false })
-      (fun _ => rfl) hg s hc
+      (fun _ => rfl) hg s hc hw.nf
     exact good_taskCancellation _ t tk hg1 _ hc1 rfl hw.rel hw.ncc hw.wc hspec hnc
   · simp only
     have t0 := tame_logEv p (Ev.started t tk.arg)
@@ -656,11 +686,11 @@ theorem good_stepCreated {cap : Cap} {L : Bool} (p : Pool) (t : Nat) (tk : PTask
       (fun k => { k with phase := .inWorker, fut := .ok, unstarted := false })) tk.req (p.reqOf tk).hooks.start
     have hg2 := t2.good hg1
     have hc2 := t2.cur hc1
-    have hw2 : InWork (s.setPhase .inWorker) := ⟨hw.rel, hw.ncc, hw.wc⟩
+    have hw2 : InWork (s.setPhase .inWorker) := ⟨hw.rel, hw.ncc, hw.wc, by simp [SoftP.setPhase]⟩
     split
     · exact good_afterWorker _ t _ hg2 _ hc2 hw2
     · exact good_afterWorker _ t _ hg2 _ hc2 hw2
-    · refine (good_suspend _ t .inWorker hg2 _ hc2 (fun _ => hw.rel) (fun h => ?_) ?_).1
+    · refine (good_suspend _ t .inWorker hg2 _ hc2 (fun _ => hw.rel) (fun h => ?_) ?_ (by simp [SoftP.setPhase])).1
       · rw [t2.can] at h; exact absurd h hnc
       · exact (hc2.ok hg2).toInWorker (Or.inr rfl)
 
@@ -687,9 +717,9 @@ theorem good_workerCancelled {cap : Cap} {L : Bool} (p : Pool) (t : Nat) (tk : P
   obtain ⟨hg1, hc1⟩ := good_cur (p.logEv (Ev.sawCancel t)) t
     (fun k => { k with sawCancel := true, phase := .wrapUp, nSaw := k.nSaw + 1 }) (fun s => s.sawCancel) (fun _ => rfl)
     hg0 s hc0 rfl (fun h => by simp [SoftP.sawCancel, NYR] at h) (fun _ => by simp [SoftP.sawCancel])
-    ((hc0.ok hg0).sawCancel hsaw)
+    ((hc0.ok hg0).sawCancel hsaw) ⟨rfl, rfl⟩ (fun h => absurd h hw.nf)
   split
-  · exact good_afterWorker _ t _ hg1 _ hc1 ⟨hw.rel, hw.ncc, hw.wc⟩
+  · exact good_afterWorker _ t _ hg1 _ hc1 ⟨hw.rel, hw.ncc, hw.wc, by simp [SoftP.sawCancel]⟩
   · exact good_taskCancellation _ t tk hg1 _ hc1 rfl hw.rel hw.ncc hw.wc hspec hnc
 
 theorem good_stepInWorker {cap : Cap} {L : Bool} (p : Pool) (t : Nat) (tk : PTask) (hg : Good cap L p) (s : SoftP) (hc : p.Cur t s)
@@ -717,7 +747,7 @@ theorem good_stepInCancelCb {cap : Cap} {L : Bool} (p : Pool) (t : Nat) (tk : PT
   have fin : ∀ (q : Pool) (f : PTask → PTask), (∀ x, (f x).soft = x.soft.setPhase .wrapUp) → Tame p q →
       Good cap L ((q.modTask t f).taskEnding t) := by
     intro q f hf tq
-    obtain ⟨hg1, hc1⟩ := good_toWrapUp q t f hf (tq.good hg) s (tq.cur hc)
+    obtain ⟨hg1, hc1⟩ := good_toWrapUp q t f hf (tq.good hg) s (tq.cur hc) (by rw [hph]; simp)
     exact good_taskEnding _ t hg1 _ hc1 ⟨hrel, rfl, fun _ _ => hcc.1⟩
   unfold stepInCancelCb
   split
